@@ -31,3 +31,10 @@ Theorem C03_reader_filter_under_approx : forall t d r,
   extract t = Some d -> arrow_keep d r = true -> pandas_keep t r = Some true.
 Proof. exact dnf_under_approx. Qed.
 Print Assumptions C03_reader_filter_under_approx.
+
+(* T-GEN: every class of the current source that switches on the generic "filter may be evaluated below me" rule
+   (_filter_passthrough) is on the reviewed list (ClassTableFilterFlags.v); the table is regenerated from /repo on every run *)
+From DX Require Import GeneratedClassTable ClassTableChecks ClassTableFilterFlags.
+Theorem C03_filter_flags_reviewed : filter_flags_b = true.
+Proof. exact filter_flags_reviewed. Qed.
+Print Assumptions C03_filter_flags_reviewed.
